@@ -5,6 +5,7 @@
 -/
 import SchedVerif.Model.Conc.Locks
 import SchedVerif.Spec.Linearize
+import SchedVerif.Lemmas.Linearize
 namespace SV
 open SV.L2
 
@@ -267,5 +268,330 @@ example : progOK lockRank 1 [] [.acq 5, .acq 6, .rel 6, .acq 0, .rel 0, .acq 0, 
     the registry lock one after the other -/
 example : progOK lockRank 0 [] [.acq 0, .acq 2, .acq 3, .rel 3, .rel 2, .rel 0, .wait 1, .wait 2, .acq 2, .rel 2, .acq 0, .rel 0] := by
   simp [progOK, lockRank]
+
+
+/-! ### linearizability: the decided Spec is the textbook statement, and what it implies -/
+
+/-- **the Bool twin evaluated by the driver on every explored history is linearizability**: the
+    memoised depth-first search answers `true` exactly when some total order of all atomic points
+    respects real-time precedence and replays on the sequential registry machine `lApply` with the
+    observed results and final registry (records are well-formed: a call returns after it was invoked) -/
+theorem C14.linearizableB_iff (tags : List (Nat × List Nat)) (init final : List Nat) (rs : List LRec)
+    (hwf : ∀ r ∈ rs, r.inv ≤ r.res) :
+    linearizableB tags init final rs = true ↔ Linearizable tags init final rs := by
+  rw [linearizableB_iff_Lin]
+  exact Lin_iff tags final rs hwf _ _ List.nodup_range
+
+theorem mem_insertSorted (x k : Nat) (l : List Nat) : k ∈ insertSorted x l ↔ k = x ∨ k ∈ l := by
+  induction l with
+  | nil => simp [insertSorted]
+  | cons y ys ih =>
+      simp only [insertSorted]
+      split
+      · simp
+      · simp only [List.mem_cons, ih]
+        constructor
+        · rintro (h | h | h)
+          · exact Or.inr (Or.inl h)
+          · exact Or.inl h
+          · exact Or.inr (Or.inr h)
+        · rintro (h | h | h)
+          · exact Or.inr (Or.inl h)
+          · exact Or.inl h
+          · exact Or.inr (Or.inr h)
+
+theorem nodup_insertSorted (x : Nat) (l : List Nat) (hn : l.Nodup) (hx : x ∉ l) : (insertSorted x l).Nodup := by
+  induction l with
+  | nil => simp [insertSorted]
+  | cons y ys ih =>
+      simp only [insertSorted]
+      split
+      · exact List.nodup_cons.mpr ⟨hx, hn⟩
+      · have hn' := List.nodup_cons.mp hn
+        refine List.nodup_cons.mpr ⟨?_, ih hn'.2 (fun h => hx (by simp [h]))⟩
+        rw [mem_insertSorted]
+        rintro (h | h)
+        · exact hx (by simp [h])
+        · exact hn'.1 h
+
+/-- a point of the sequential machine keeps the registry duplicate-free -/
+theorem lApply_nodup (tags : List (Nat × List Nat)) (s s' : LState) (op : LOp)
+    (h : lApply tags s op = some s') (hn : s.reg.Nodup) : s'.reg.Nodup := by
+  cases op with
+  | sched k registered =>
+      simp only [lApply] at h
+      split at h
+      · cases h
+      · rename_i hc
+        cases registered with
+        | true => simp only [if_true] at h; cases h; exact nodup_insertSorted k _ hn (by simpa using hc)
+        | false => simp only [Bool.false_eq_true, if_false] at h; cases h; exact hn
+  | del k ok =>
+      simp only [lApply] at h
+      split at h
+      · split at h
+        · cases h; exact hn.erase k
+        · cases h
+      · split at h
+        · cases h
+        · cases h; exact hn
+  | dtags q any n =>
+      simp only [lApply] at h
+      split at h
+      · cases h; exact hn.sublist List.filter_sublist
+      · cases h
+  | get q any res => simp only [lApply] at h; split at h <;> cases h; exact hn
+  | jobs res => simp only [lApply] at h; split at h <;> cases h; exact hn
+  | str n => simp only [lApply] at h; split at h <;> cases h; exact hn
+  | execSel id batch force =>
+      simp only [lApply] at h
+      split at h
+      · cases h
+      · split at h
+        · cases h; exact hn
+        · cases h
+  | execFin id retire =>
+      simp only [lApply] at h
+      split at h
+      · cases h; exact hn.sublist List.filter_sublist
+      · cases h
+
+/-- only a scheduling call of `k` itself can put `k` into the registry -/
+theorem lApply_not_mem (tags : List (Nat × List Nat)) (s s' : LState) (op : LOp)
+    (h : lApply tags s op = some s') (k : Nat) (hk : k ∉ s.reg) (hop : ∀ b, op ≠ .sched k b) :
+    k ∉ s'.reg := by
+  cases op with
+  | sched k' registered =>
+      simp only [lApply] at h
+      split at h
+      · cases h
+      · cases registered with
+        | true =>
+            simp only [if_true] at h; cases h
+            simp only [mem_insertSorted]
+            rintro (e | e)
+            · exact hop true (by rw [e])
+            · exact hk e
+        | false => simp only [Bool.false_eq_true, if_false] at h; cases h; exact hk
+  | del k' ok =>
+      simp only [lApply] at h
+      split at h
+      · split at h
+        · cases h; exact fun hc => hk (List.mem_of_mem_erase hc)
+        · cases h
+      · split at h
+        · cases h
+        · cases h; exact hk
+  | dtags q any n =>
+      simp only [lApply] at h
+      split at h
+      · cases h; exact fun hc => hk (List.mem_filter.mp hc).1
+      · cases h
+  | get q any res => simp only [lApply] at h; split at h <;> cases h; exact hk
+  | jobs res => simp only [lApply] at h; split at h <;> cases h; exact hk
+  | str n => simp only [lApply] at h; split at h <;> cases h; exact hk
+  | execSel id batch force =>
+      simp only [lApply] at h
+      split at h
+      · cases h
+      · split at h
+        · cases h; exact hk
+        · cases h
+  | execFin id retire =>
+      simp only [lApply] at h
+      split at h
+      · cases h; exact fun hc => hk (List.mem_filter.mp hc).1
+      · cases h
+
+/-- while `k` is out of the registry and is not scheduled again, no `exec_jobs` call chooses it -/
+theorem replay_absent_not_chosen (tags : List (Nat × List Nat)) (final : List Nat) (rs : List LRec) (k : Nat) :
+    ∀ (ord : List Nat) (s : LState), k ∉ s.reg → Replay tags final rs s ord →
+      (∀ i ∈ ord, ∀ r, rs[i]? = some r → ∀ b, r.op ≠ .sched k b) →
+      ∀ e ∈ ord, ∀ re, rs[e]? = some re → ∀ id batch force, re.op = .execSel id batch force → k ∉ batch := by
+  intro ord
+  induction ord with
+  | nil => intro s _ _ _ e he; cases he
+  | cons i ord ih =>
+      intro s hk hrep hns e he re hre id batch force hop
+      obtain ⟨r, s', hr, ha, hrep'⟩ := hrep
+      rcases List.mem_cons.mp he with e1 | e1
+      · subst e1
+        have : re = r := by rw [hr] at hre; exact (Option.some.inj hre).symm
+        subst this
+        rw [hop] at ha
+        simp only [lApply] at ha
+        split at ha
+        · cases ha
+        · split at ha
+          · rename_i hb
+            intro hkb
+            have hb1 := (Bool.and_eq_true _ _).mp hb |>.1
+            have := List.all_eq_true.mp hb1 k hkb
+            exact hk (by simpa using this)
+          · cases ha
+      · have hk' := lApply_not_mem tags s s' r.op ha k hk (hns i (by simp) r hr)
+        exact ih s' hk' hrep' (fun j hj => hns j (by simp [hj])) e e1 re hre id batch force hop
+
+/-- **a deleted job is never chosen by an `exec_jobs` call that started after the deletion returned**
+    (and, not being scheduled again, never resurrected): in every linearizable history, if
+    `delete_job(k)` returned before `exec_jobs` call `e` was invoked, then `k` is not in `e`'s batch -/
+theorem C14.deleted_not_chosen (tags : List (Nat × List Nat)) (init final : List Nat) (rs : List LRec)
+    (hinit : (sortKeys init).Nodup)
+    (hlin : Linearizable tags init final rs) (k d e : Nat) (rd re : LRec)
+    (hd : rs[d]? = some rd) (he : rs[e]? = some re) (hdel : rd.op = .del k true)
+    (id : Nat) (batch : List Nat) (force : Bool) (hsel : re.op = .execSel id batch force)
+    (hrt : rd.res < re.inv)
+    (hns : ∀ (i : Nat) (r : LRec), rs[i]? = some r → ∀ b, r.op ≠ LOp.sched k b) : k ∉ batch := by
+  obtain ⟨ord, hp, hrtp, hrep⟩ := hlin
+  have hdm : d ∈ ord := hp.mem_iff.mpr (List.mem_range.mpr (by
+    have := List.getElem?_eq_some_iff.mp hd; exact this.1))
+  have hem : e ∈ ord := hp.mem_iff.mpr (List.mem_range.mpr (by
+    have := List.getElem?_eq_some_iff.mp he; exact this.1))
+  -- generalise over the replay
+  have key : ∀ (ord : List Nat) (s : LState), s.reg.Nodup → RespectsRT rs ord → Replay tags final rs s ord →
+      d ∈ ord → e ∈ ord → k ∉ batch := by
+    intro ord
+    induction ord with
+    | nil => intro s _ _ _ hd' _; cases hd'
+    | cons i ord ih =>
+        intro s hn hrt' hrep hd' he'
+        obtain ⟨r, s', hr, ha, hrep'⟩ := hrep
+        have hpw := List.pairwise_cons.mp hrt'
+        by_cases hid : i = d
+        · subst hid
+          have : r = rd := by rw [hd] at hr; exact (Option.some.inj hr).symm
+          subst this
+          have hne : e ≠ i := by
+            intro hee; subst hee
+            rw [hd] at he
+            have : r = re := Option.some.inj he
+            subst this
+            rw [hdel] at hsel; cases hsel
+          have heo : e ∈ ord := by
+            rcases List.mem_cons.mp he' with h | h
+            · exact absurd h hne
+            · exact h
+          -- after the deletion `k` is out
+          have hk' : k ∉ s'.reg := by
+            rw [hdel] at ha
+            simp only [lApply, if_true] at ha
+            split at ha
+            · cases ha
+              exact fun hc => (List.Nodup.mem_erase_iff hn).mp hc |>.1 rfl
+            · cases ha
+          exact replay_absent_not_chosen tags final rs k ord s' hk' hrep'
+            (fun j _ r' hr' => hns j r' hr') e heo re he id batch force hsel
+        · by_cases hie : i = e
+          · subst hie
+            have hdo : d ∈ ord := by
+              rcases List.mem_cons.mp hd' with h | h
+              · exact absurd h.symm hid
+              · exact h
+            exact absurd hrt (hpw.1 d hdo re rd he hd)
+          · have hdo : d ∈ ord := by
+              rcases List.mem_cons.mp hd' with h | h
+              · exact absurd h.symm hid
+              · exact h
+            have heo : e ∈ ord := by
+              rcases List.mem_cons.mp he' with h | h
+              · exact absurd h.symm hie
+              · exact h
+            exact ih s' (lApply_nodup tags s s' r.op ha hn) hpw.2 hrep' hdo heo
+  exact key ord _ hinit hrtp hrep hdm hem
+
+
+/-- the atomic points that can take `k` out of the registry -/
+def removesKey (tags : List (Nat × List Nat)) (k : Nat) : LOp → Bool
+  | .del k' ok => ok && k' == k
+  | .dtags q any _ => q.isEmpty || tagMatch q ((tags.lookup k).getD []) any
+  | .execFin _ retire => retire.contains k
+  | _ => false
+
+theorem lApply_keeps (tags : List (Nat × List Nat)) (s s' : LState) (op : LOp)
+    (h : lApply tags s op = some s') (k : Nat) (hk : k ∈ s.reg) (hop : removesKey tags k op = false) :
+    k ∈ s'.reg := by
+  cases op with
+  | sched k' registered =>
+      simp only [lApply] at h
+      split at h
+      · cases h
+      · cases registered with
+        | true => simp only [if_true] at h; cases h; exact (mem_insertSorted k' k _).mpr (Or.inr hk)
+        | false => simp only [Bool.false_eq_true, if_false] at h; cases h; exact hk
+  | del k' ok =>
+      simp only [lApply] at h
+      split at h
+      · rename_i hok
+        split at h
+        · cases h
+          have hne : k ≠ k' := by
+            intro e
+            simp [removesKey, hok, e] at hop
+          exact (List.mem_erase_of_ne hne).mpr hk
+        · cases h
+      · split at h
+        · cases h
+        · cases h; exact hk
+  | dtags q any n =>
+      simp only [lApply] at h
+      split at h
+      · cases h
+        simp only [removesKey, Bool.or_eq_false_iff] at hop
+        refine List.mem_filter.mpr ⟨hk, ?_⟩
+        simp only [lSelect, hop.1, Bool.false_eq_true, if_false, Bool.not_eq_true', List.contains_eq_mem,
+          decide_eq_false_iff_not, List.mem_filter, not_and]
+        intro _
+        simp [hop.2]
+      · cases h
+  | get q any res => simp only [lApply] at h; split at h <;> cases h; exact hk
+  | jobs res => simp only [lApply] at h; split at h <;> cases h; exact hk
+  | str n => simp only [lApply] at h; split at h <;> cases h; exact hk
+  | execSel id batch force =>
+      simp only [lApply] at h
+      split at h
+      · cases h
+      · split at h
+        · cases h; exact hk
+        · cases h
+  | execFin id retire =>
+      simp only [lApply] at h
+      split at h
+      · cases h
+        refine List.mem_filter.mpr ⟨hk, ?_⟩
+        simpa [removesKey] using hop
+      · cases h
+
+/-- **a registered job is never lost**: in every linearizable history a job that was registered
+    at the beginning and that no completed call removed (no successful `delete_job` of it, no
+    `delete_jobs` whose tags select it, no `exec_jobs` finish point retiring it) is in the final
+    registry -/
+theorem C14.registered_not_lost (tags : List (Nat × List Nat)) (init final : List Nat) (rs : List LRec)
+    (hlin : Linearizable tags init final rs) (k : Nat) (hk : k ∈ sortKeys init)
+    (hkeep : ∀ r ∈ rs, removesKey tags k r.op = false) : k ∈ final := by
+  obtain ⟨ord, _, _, hrep⟩ := hlin
+  have key : ∀ (ord : List Nat) (s : LState), k ∈ s.reg → Replay tags final rs s ord → k ∈ final := by
+    intro ord
+    induction ord with
+    | nil => intro s hk h; exact h ▸ hk
+    | cons i ord ih =>
+        intro s hk hrep
+        obtain ⟨r, s', hr, ha, hrep'⟩ := hrep
+        exact ih s' (lApply_keeps tags s s' r.op ha k hk (hkeep r (List.mem_of_getElem? hr))) hrep'
+  exact key ord _ hk hrep
+
+/-! non-vacuity: two overlapping calls, `delete_job(0)` succeeded and `jobs` returned `[1]`; the
+    history is linearizable (delete first), hence accepted by the search -/
+example : Linearizable [] [0, 1] [1]
+    [{ op := .del 0 true, inv := 0, res := 5 }, { op := .jobs [1], inv := 1, res := 4 }] := by
+  refine ⟨[0, 1], List.Perm.refl _, ?_, ?_⟩
+  · simp [RespectsRT]
+  · exact ⟨_, _, rfl, rfl, _, _, rfl, rfl, rfl⟩
+
+example : linearizableB [] [0, 1] [1]
+    [{ op := .del 0 true, inv := 0, res := 5 }, { op := .jobs [1], inv := 1, res := 4 }] = true := by
+  rw [C14.linearizableB_iff _ _ _ _ (by simp)]
+  refine ⟨[0, 1], List.Perm.refl _, ?_, ?_⟩
+  · simp [RespectsRT]
+  · exact ⟨_, _, rfl, rfl, _, _, rfl, rfl, rfl⟩
 
 end SV
